@@ -319,7 +319,7 @@ def run(M, c):
 
         M.quiet += 1
         try:
-            hist, st = conc.run(items, one, nthreads=4, chunk=64)
+            hist, st = conc.run(items, one, nthreads=4, chunk=64, tick=M.progress)
             ref = {}
             for s_ in items:
                 try:
